@@ -77,7 +77,7 @@ KNOWN_IPV = "F-C02-inplace-vector-default-init"
 # CT cases that are known findings (id -> finding id)
 CT_KNOWN = {"ipv_default_1": KNOWN_IPV, "ipv_default_16": KNOWN_IPV, "ipv_default_256": KNOWN_IPV}
 
-_LAST = {"default_init_objects": 0, "value_init_objects": 0}
+_LAST = {"default_init_objects": 0, "value_init_objects": 0, "corollaries_up_to_date": None}
 
 
 def generate(tier, seed):
@@ -125,8 +125,8 @@ def group_of(case):
 
 class _Theorems(dict):
     """operation -> theorems of Props.lean that speak about it (for the replay file)"""
-    FAMILY = {"vec": ["vec_history_no_error", "vec_step_no_oob", "default_init_defined_partial"],
-              "set": ["set_history_no_error", "set_step_no_oob"], "bits": ["bitset_history_no_error", "bitset_step_no_oob"],
+    FAMILY = {"vec": ["vec_history_no_error", "vec_step_no_oob", "default_init_defined_partial", "life_vec_history_safe_no_lifetime_error"],
+              "set": ["set_history_no_error", "set_step_no_oob", "set_lookup_no_oob", "life_set_history_safe_no_lifetime_error"], "bits": ["bitset_history_no_error", "bitset_step_no_oob"],
               "str": ["string_history_terminator_in_buffer", "string_history_no_error", "string_step_no_oob"],
               "sv": ["sv_find_no_oob", "sv_rfind_no_oob", "sv_compare_no_oob", "sv_copy_no_oob", "sv_substr_no_oob"],
               "alg": ["alg_*_no_oob"], "span": ["span_subspan_no_oob", "span_mdspan_access_no_oob", "span_mdspan_offset_in_span"],
@@ -141,8 +141,22 @@ class _Theorems(dict):
 THEOREMS = _Theorems()
 
 
+def corollaries_status():
+    """gen/c02_props.py --check: are the corollaries of Props.lean those of the CURRENT theorems of the other properties?
+    -> (up_to_date, report)"""
+    rc, out, err = lib.sh([sys.executable, os.path.join(lib.VERIF, "gen", "c02_props.py"), "--check"], timeout=120)
+    return rc == 0, (out + err).strip()
+
+
 def regenerate(ctx):
-    """tie T for the kernel `_ub` theorems: the calendar kernels are regenerated from the current source"""
+    """tie T for the kernel `_ub` theorems: the calendar kernels are regenerated from the current source.  The corollaries
+    themselves are NOT rewritten by a check run (a check never edits theorem statements); a stale Props.lean is reported
+    here, by name, and — when a cited theorem was renamed or its hypotheses changed — stops the build of
+    TetlProofs.C02.Props with "C02 corollary out of date" (TetlProofs/C02/Lemmas.lean)."""
+    ok, report = corollaries_status()
+    if not ok:
+        log("NOTE framework, not library: " + report.replace("\n", "\n  "))
+    _LAST["corollaries_up_to_date"] = ok
     from props import c11
     return c11.regenerate(ctx)
 
@@ -321,6 +335,7 @@ def run(ctx, replay=None):
                                    "rejected": {cid: r["diagnostic"] for cid, r in ct_failed.items()},
                                    "known": {cid: CT_KNOWN[cid] for cid in ct_failed if cid in CT_KNOWN},
                                    "cmd": " ".join([lib.CXX] + CT_FLAGS + ["-I $VERIF_REPO/include", CT_SOURCE])}
+        cov["corollaries_follow_current_theorems"] = _LAST["corollaries_up_to_date"]   # gen/c02_props.py --check on this run
         cov["evaluations"] = cov.get("evaluations", 0) + len(ct)
         ev["violations"] = len(ctx.violations)
         json.dump(ev, open(ev_path, "w"), indent=1)
@@ -330,7 +345,7 @@ def run(ctx, replay=None):
     return rc
 
 
-CLAIMED = False  # temporarily: the corollaries must follow the restated theorems of C01, C09, C15, C19 … (Props.lean.pending)
+CLAIMED = True
 TECHNIQUE = ("Lean 4 proof (safety corollaries of the owning properties' refinement theorems + `_ub` obligations of the regenerated calendar "
              "kernels) + differential boundary run under ASan/UBSan with exact-size heap objects, allocation hooks and poisoned "
              "default-initialisation + compile-time leg (GCC constant evaluator)")
@@ -338,7 +353,8 @@ LEVEL_TEXT = ("For every modelled operation of the containers, strings and views
               "bit/numeric helpers it is proved in Lean 4 — for all inputs, states, valid histories and capacities, no size bound — that the "
               "model, which reads and writes only through checked accessors, never returns an error (no access outside the object's inline "
               "storage or the caller's ranges, no violated internal precondition, no invalid shift or signed overflow in the integer models), "
-              "as corollaries of the refinement theorems of the owning properties; the undefined-behaviour obligations of the calendar kernels "
+              "as corollaries of the refinement theorems of the owning properties, and that on every valid history of the owning containers no "
+              "element is used after its destruction, constructed over a live one or destroyed twice (corollaries of C03); the undefined-behaviour obligations of the calendar kernels "
               "regenerated from the source are proved; every state member read by member functions of a default-initialised object is proved "
               "to have an initializer, except inplace_vector's size (known finding, counterexample proved). The models are tied to the "
               "current source on every run by a boundary stream of valid operations executed on tetl, libstdc++/glibc, model and spec, with "
@@ -352,15 +368,17 @@ LEVEL_NOTE = ("Partial: 'never calls a dynamic allocator' and 'reads no uninitia
 # modelled/observed operations whose safety is NOT covered by a theorem of Props.lean (differential run only)
 CORRESPONDENCE_ONLY = [
     "C-library number parsers strtol/strtoul/atoi… inside C10's known-finding classes (leading '+', base prefix, out-of-range, '-' on unsigned): "
-    "only charconv_strto_no_oob_partial / charconv_ato_no_oob_partial",
+    "only charconv_strto_no_oob_partial / charconv_strto_auto_no_oob_partial / charconv_cstrto_no_oob_partial / charconv_ato_no_oob_partial",
     "to_floating_point / from_floating_point (strtod family): no model",
     "cctype / cwctype predicates: total functions over int, no buffer (C18 proves their values; nothing to state for C02 beyond UBSan observation)",
     "integer comparison helpers cmp_less … in_range (C14): total functions, no error case in the model",
     "bitset::to_ulong/to_ullong for N > 64 (absent API, C17 known finding)",
     "span element access operator[]/front/back and array<T,N> members: observed by the run-time stream only",
-    "inplace_string::replace family (C04 known finding F-C04-replace-overwrites-only: the model mirrors the defect, no safety theorem)",
+    "inplace_string::replace family: safety only inside the hypotheses of C04's partial theorems (string_replace*_no_oob_partial; "
+    "C04 known finding F-C04-replace-overwrites-only)",
     "mem* functions on overlapping or type-punned storage beyond C18's byte model",
-    "constructors/destructors of non-trivial element types (lifetime is property C03)",
+    "pair/tuple/inplace_function histories (C20 step_refines/run_refines are stated through a refinement relation, not as `= .ok`): only the "
+    "per-operation fn_*_no_error corollaries and C03's lifetime corollaries life_fn_*",
 ]
 UNPROVED_OBSERVED = ["never calls a dynamic allocator (observed: allocation hooks armed during every library call of the stream; compile-time leg)",
                      "reads no uninitialised value (observed: poisoned default-initialised objects, -ftrivial-auto-var-init=pattern, constant "
